@@ -359,3 +359,80 @@ Proof.
       * apply det_bound; assumption.
       * apply det_bound; assumption.
 Qed.
+
+(* ------------------------------------------------------------------ parallel, off-line *)
+(* whatever the earlier tests say, a start-difference that is not parallel to segment 1
+   (some component of (s2 - s1) x d1 beyond tol) makes the parallel branch return None *)
+Lemma seg3d_par_offline : forall tol s1 e1 s2 e2 dl1 dl2 m1 m2,
+  let ds := map2 Qminus s2 s1 in
+  (qltb tol (Qabs (c3 ds 1 * c3 dl1 2 - c3 ds 2 * c3 dl1 1)) = true \/
+   qltb tol (Qabs (c3 ds 2 * c3 dl1 0 - c3 ds 0 * c3 dl1 2)) = true \/
+   qltb tol (Qabs (c3 ds 0 * c3 dl1 1 - c3 ds 1 * c3 dl1 0)) = true) ->
+  seg3d_par tol s1 e1 s2 e2 dl1 dl2 m1 m2 = R3None.
+Proof.
+  intros tol s1 e1 s2 e2 dl1 dl2 m1 m2 ds H. unfold seg3d_par. cbv zeta. fold ds.
+  destruct (negb (bools_eqb m1 m2)); [reflexivity|].
+  match goal with |- (if ?b then _ else _) = _ => destruct b end; [reflexivity|].
+  match goal with |- (if ?b then _ else _) = _ => destruct b end; [reflexivity|].
+  destruct (qltb tol (Qabs (c3 ds 1 * c3 dl1 2 - c3 ds 2 * c3 dl1 1))) eqn:E1; [reflexivity|].
+  destruct (qltb tol (Qabs (c3 ds 2 * c3 dl1 0 - c3 ds 0 * c3 dl1 2))) eqn:E2; [reflexivity|].
+  destruct (qltb tol (Qabs (c3 ds 0 * c3 dl1 1 - c3 ds 1 * c3 dl1 0))) eqn:E3; [reflexivity|].
+  destruct H as [H | [H | H]]; discriminate.
+Qed.
+
+(* parallel direction vectors and a start difference not parallel to them: no common point *)
+Lemma parallel_offline_disjoint : forall a0 a1 a2 b0 b1 b2 c0 c1 c2 d0 d1 d2 p,
+  let u0 := b0 - a0 in let u1 := b1 - a1 in let u2 := b2 - a2 in
+  let w0 := d0 - c0 in let w1 := d1 - c1 in let w2 := d2 - c2 in
+  u1 * w2 - u2 * w1 == 0 -> u2 * w0 - u0 * w2 == 0 -> u0 * w1 - u1 * w0 == 0 ->
+  ~ ((c1 - a1) * u2 - (c2 - a2) * u1 == 0 /\ (c2 - a2) * u0 - (c0 - a0) * u2 == 0 /\
+     (c0 - a0) * u1 - (c1 - a1) * u0 == 0) ->
+  ~ common3 p [a0; a1; a2] [b0; b1; b2] [c0; c1; c2] [d0; d1; d2].
+Proof.
+  intros a0 a1 a2 b0 b1 b2 c0 c1 c2 d0 d1 d2 p u0 u1 u2 w0 w1 w2 P0 P1 P2 N
+         [[s [_ [_ Hs]]] [t [_ [_ Ht]]]].
+  pose proof (Hs 0%nat ltac:(lia)) as S0. pose proof (Hs 1%nat ltac:(lia)) as S1.
+  pose proof (Hs 2%nat ltac:(lia)) as S2. pose proof (Ht 0%nat ltac:(lia)) as T0.
+  pose proof (Ht 1%nat ltac:(lia)) as T1. pose proof (Ht 2%nat ltac:(lia)) as T2.
+  unfold c3 in *. cbn [List.nth] in *.
+  set (p0 := List.nth 0 p 0) in *. set (p1 := List.nth 1 p 0) in *. set (p2 := List.nth 2 p 0) in *.
+  unfold u0, u1, u2, w0, w1, w2 in *.
+  apply N. split; [|split].
+  - clear - S1 S2 T1 T2 P0. nsatz.
+  - clear - S0 S2 T0 T2 P1. nsatz.
+  - clear - S0 S1 T0 T1 P2. nsatz.
+Qed.
+
+(* segments_3d on parallel lines that are not the same line (beyond tol): returns None, and
+   that is the exact answer.  Any rational end points, any tol > 0. *)
+Lemma seg3d_parallel_offline_correct : forall tol a0 a1 a2 b0 b1 b2 c0 c1 c2 d0 d1 d2,
+  0 < tol ->
+  let u0 := b0 - a0 in let u1 := b1 - a1 in let u2 := b2 - a2 in
+  let w0 := d0 - c0 in let w1 := d1 - c1 in let w2 := d2 - c2 in
+  u1 * w2 - u2 * w1 == 0 -> u2 * w0 - u0 * w2 == 0 -> u0 * w1 - u1 * w0 == 0 ->
+  (tol < Qabs ((c1 - a1) * u2 - (c2 - a2) * u1) \/ tol < Qabs ((c2 - a2) * u0 - (c0 - a0) * u2) \/
+   tol < Qabs ((c0 - a0) * u1 - (c1 - a1) * u0)) ->
+  seg3d tol [a0; a1; a2] [b0; b1; b2] [c0; c1; c2] [d0; d1; d2] = R3None /\
+  correct3 [a0; a1; a2] [b0; b1; b2] [c0; c1; c2] [d0; d1; d2]
+           (seg3d tol [a0; a1; a2] [b0; b1; b2] [c0; c1; c2] [d0; d1; d2]).
+Proof.
+  intros tol a0 a1 a2 b0 b1 b2 c0 c1 c2 d0 d1 d2 Ht u0 u1 u2 w0 w1 w2 P0 P1 P2 Hoff.
+  assert (E : seg3d tol [a0; a1; a2] [b0; b1; b2] [c0; c1; c2] [d0; d1; d2] = R3None).
+  { unfold seg3d. cbn [map2 List.map]. cbv zeta.
+    match goal with |- context [pick_axes ?m] => set (ms := m) end.
+    assert (B : forall i0 i1 ni, pick_axes ms = (i0, i1, ni) ->
+              qltb (Qabs (c3 [b0 - a0; b1 - a1; b2 - a2] i0 * c3 [d0 - c0; d1 - c1; d2 - c2] i1
+                          - c3 [b0 - a0; b1 - a1; b2 - a2] i1 * c3 [d0 - c0; d1 - c1; d2 - c2] i0)) tol = true).
+    { intros i0 i1 ni Ep. apply qabs_lt_zero; [exact Ht|].
+      destruct (pick_axes_cases ms) as [E | [E | E]]; rewrite E in Ep; injection Ep as <- <- <-;
+        unfold c3; cbn [List.nth]; unfold u0, u1, u2, w0, w1, w2 in *; lra. }
+    destruct (pick_axes ms) as [[i0 i1] ni] eqn:Ep. rewrite (B i0 i1 ni eq_refl).
+    apply seg3d_par_offline. unfold c3. cbn [map2 List.nth].
+    unfold u0, u1, u2 in Hoff.
+    destruct Hoff as [H | [H | H]]; [left|right; left|right; right]; apply qltb_true; exact H. }
+  split; [exact E|]. rewrite E. cbn [correct3]. intro p.
+  apply (parallel_offline_disjoint a0 a1 a2 b0 b1 b2 c0 c1 c2 d0 d1 d2 p P0 P1 P2).
+  intros (Z0 & Z1 & Z2). fold u0 u1 u2 in Z0, Z1, Z2.
+  destruct Hoff as [H | [H | H]]; [rewrite Z0 in H|rewrite Z1 in H|rewrite Z2 in H];
+    change (Qabs 0) with 0 in H; lra.
+Qed.
